@@ -19,6 +19,7 @@ from minecraft.networking.connection import Connection, ConnectionContext, Playi
 from minecraft.networking.packets import clientbound, serverbound, Packet
 
 from pyvc.driver import Unit
+from pyvc.models import AbstractSeq
 from pyvc.engine import PathEnd
 from pyvc.values import SInt, SBool, SStr, And, Or, Not, Implies, Unsupported
 from pyvc.interp import PyRaise
@@ -180,13 +181,150 @@ def replay_play(rng=None):
     return dict(confirmed=False, n=n, call='play histories', observed='conform')
 
 
+class KeepAliveWire(Unit):
+    """End to end over the wire domain: WHATEVER id bytes the server sends in a keep-alive (any VarInt encoding before
+    protocol 339, any 8 bytes from 339 on), the real decoder, the real reaction and the real encoder produce an answer that can be
+    written and carries the same id.  Same for the teleport id (VarInt) from protocol 107 on."""
+    prop = 'C11'
+    name = 'C11.keepalive.wire'
+    int_mode = 'bv'
+    functions = ('minecraft.networking.packets.keep_alive_packet.AbstractKeepAlivePacket.get_definition',
+                 P_ + ' [keep alive / teleport id through the real codecs]',
+                 'minecraft.networking.types.basic.VarInt.read', 'minecraft.networking.types.basic.VarInt.send',
+                 'minecraft.networking.types.basic.Long.read', 'minecraft.networking.types.basic.Long.send')
+    uses = ('S4 protocol_later_eq',)
+
+    def setup(self, I):
+        install_version_contracts(I)
+        from .common import unroll_varint
+        from .codec import install_buffer_model
+        unroll_varint(I)
+        install_buffer_model(I)
+        I.override(raw(Connection, 'disconnect'), lambda I_, c, immediate=False: None, kind='contract')
+
+    def run(self, I):
+        E = I.E
+        from pyvc.models import ArbitraryStream, InStream
+        from pyvc.values import SBytes
+        from minecraft.networking.packets import PacketBuffer
+        ctx, i = sym_context(I, 'supported')
+        conn = object.__new__(Connection)
+        conn.__dict__.update(context=ctx, _outgoing_packet_queue=deque(), spawned=False, connected=True,
+                             options=types.SimpleNamespace(compression_enabled=False, compression_threshold=-1))
+        r = object.__new__(PlayingReactor)
+        r.__dict__['connection'] = conn
+        which = E.fork(2, 'packet')
+        if which == 0:
+            pkt = clientbound.play.KeepAlivePacket()
+            field = 'keep_alive_id'
+        else:
+            if not I.truth(i >= I107):
+                return None
+            pkt = clientbound.play.PlayerPositionAndLookPacket()
+            field = 'teleport_id'
+        I.setattr_(pkt, 'context', ctx)
+        if which == 0:
+            stream = ArbitraryStream(I, 'wire')
+            try:
+                I.call(I.getattr_(pkt, 'read'), stream)
+            except PyRaise:
+                return None            # not a well-formed keep-alive: nothing to answer
+        else:
+            # only the id matters: decode it from arbitrary wire bytes with the field's own type
+            stream = ArbitraryStream(I, 'wire')
+            try:
+                from minecraft.networking.types import VarInt
+                tid = I.call(raw(VarInt, 'read'), VarInt, stream)
+            except PyRaise:
+                return None
+            for n in ('x', 'y', 'z', 'yaw', 'pitch'):
+                setattr(pkt, n, 0.0)
+            pkt.flags, pkt.teleport_id = 0, tid
+        got = getattr(pkt, field)
+        try:
+            I.call(I.getattr_(r, 'react'), pkt)
+        except PyRaise as e:
+            E.check('wire.react-no-raise', False, note='%r' % (e.exc,))
+            return None
+        q = list(conn._outgoing_packet_queue)
+        E.check('wire.one-answer', len(q) == 1)
+        if len(q) != 1:
+            return None
+        buf = I.call(PacketBuffer)
+        try:
+            I.call(I.getattr_(q[0], 'write_fields'), buf)
+        except PyRaise as e:
+            E.check('wire.answer-writable', False, note='the answer to a decodable %s cannot be written: %r' % (field, e.exc))
+            return None
+        I.call(I.getattr_(buf, 'reset_cursor'))
+        back = type(q[0])()
+        I.setattr_(back, 'context', ctx)
+        I.call(I.getattr_(back, 'read'), buf)
+        E.check('wire.same-id', I.equals(getattr(back, field), got), note='the id on the wire of the answer is the id received')
+        return None
+
+    def replay(self, model, label):
+        total = int(model.get('wire.total', 0))
+        data = bytes(int(model.get('wire[%d]' % k, 0)) & 0xFF for k in range(min(total, 16)))
+        i = int(model.get('i', 0))
+        return replay_wire(i, data)
+
+    def bounded(self, rng, tier):
+        fails, cnt = [], 0
+        from spec import wire as W
+        for i in sorted(set(supported_indices_()[::10] + [supported_indices_()[0], supported_indices_()[-1]])):
+            for v in (0, 1, 127, 128, 2 ** 31 - 1, 2 ** 31, 2 ** 32 - 1, 2 ** 35 - 1):
+                cnt += 1
+                rp = replay_wire(i, W.varint_enc(v) if protocol_of_index(i) < 339 else (v % 2 ** 64).to_bytes(8, 'big'))
+                if rp['confirmed']:
+                    fails.append(dict(call=rp['call'], observed=rp['observed'], witness='keepalive-wire'))
+                    break
+        return dict(name='C11.keepalive.wire-values', evaluations=cnt, failures=fails[:1],
+                    bound='a tenth of the supported versions x ids at the VarInt / Long boundaries, through real codecs')
+
+
+def supported_indices_():
+    from .common import supported_indices
+    return supported_indices()
+
+
+def replay_wire(i, data):
+    import io
+    from minecraft.networking.packets import PacketBuffer
+    ctx = real_context(i)
+    conn = object.__new__(Connection)
+    conn.context, conn._outgoing_packet_queue, conn.spawned = ctx, deque(), False
+    r = PlayingReactor(conn)
+    pkt = clientbound.play.KeepAlivePacket(ctx)
+    k, v = native_call(pkt.read, io.BytesIO(data))
+    if k != 'ok':
+        return dict(confirmed=False, call='keep-alive bytes %s' % data.hex(), observed='not decodable')
+    r.react(pkt)
+    bad = None
+    if len(conn._outgoing_packet_queue) != 1:
+        bad = 'no answer queued'
+    else:
+        buf = PacketBuffer()
+        k, v = native_call(conn._outgoing_packet_queue[0].write_fields, buf)
+        if k != 'ok':
+            bad = 'the answer cannot be written: %r' % (v,)
+        else:
+            buf.reset_cursor()
+            back = serverbound.play.KeepAlivePacket(ctx)
+            back.read(buf)
+            if back.keep_alive_id != pkt.keep_alive_id:
+                bad = 'answer carries id %r, received %r' % (back.keep_alive_id, pkt.keep_alive_id)
+    return dict(confirmed=bad is not None, call='keep-alive with id bytes %s at protocol %d' % (data.hex(), protocol_of_index(i)),
+                observed=bad or 'conforms')
+
+
 # ------------------------------------------------------------------------------------------
 class AbsItem(object):
     def __init__(self, idx):
         self.idx = idx
 
 
-class AbsDeque(object):
+class AbsDeque(AbstractSeq):
     """An outgoing queue of symbolic length; element k (ghost index) is AbsItem(k)."""
 
     def __init__(self, n):
@@ -446,4 +584,4 @@ class HandleExit(Unit):
 
 
 def units(tier):
-    return [PlaySteps(), PopPacket(), RunLoop(), HandleExit()]
+    return [PlaySteps(), KeepAliveWire(), PopPacket(), RunLoop(), HandleExit()]
